@@ -122,7 +122,8 @@ static void run_case (int format, int ch, int rate, int t, int lz, int gen, long
 		r = vh_read_t (s, t, vh_rint (2), (char *) rbuf + done * ts, k, ch) ;
 		if (r != k)
 		{	long B = vh_block (format, ch, rate), got = (done + (r > 0 ? r : 0)) / ch ;
-			vh_viol (vh_key ("C01|read-short|%s|%s", fn, (B > 1 && got >= N - N % B) ? "only-tail-block-missing" : "body-missing"), "N=%ld ch=%d %s: read of %ld items at item %ld returned %ld (frames reported %ld)", N, ch, vh_tname [t], k, done, (long) r, (long) ri.frames) ; break ; }
+			int ct = 0 ; if (items >= 2 * ch) ct = !memcmp ((char *) wbuf + (items - ch) * ts, (char *) wbuf + (items - 2 * ch) * ts, ch * ts) ;
+			vh_viol (vh_key ("C01|read-short|%s|%s%s", fn, (B > 1 && got >= N - N % B) ? "only-tail-block-missing" : "body-missing", ct ? "|last-two-frames-equal" : ""), "N=%ld ch=%d %s: read of %ld items at item %ld returned %ld (frames reported %ld)", N, ch, vh_tname [t], k, done, (long) r, (long) ri.frames) ; break ; }
 		done += k ;
 		}
 	if (done == items)
